@@ -9,7 +9,7 @@ from ..leanio import driver
 from . import dbcommon as C
 
 ID = "C03"
-LEAN_MODULES = ["SqliteDissect.Properties.C03Skip", "SqliteDissect.Properties.C03"]
+LEAN_MODULES = ["SqliteDissect.Properties.C03Replay", "SqliteDissect.Properties.C03Skip", "SqliteDissect.Properties.C03"]
 RULE = ("WAL histories as in C02; for every rowid table (and every index, for the correspondence) the commits of "
         "interface.get_version_history_iterator are compared with the Lean model (vh.iter) and replayed from the "
         "empty table: the state after commit k must equal SQLite's snapshot after that commit; added/deleted rowid "
